@@ -278,3 +278,51 @@ fn c16_many_empty_and_garbage_first_record() {
 
 
 
+
+// ------------------------------------------------------------------------------------------------
+// The wrapper itself, on the real instantiation, with the single-record parser replaced by a model
+// (2-byte records [type, flag]: flag bit 7 = malformed; a lone trailing byte = incomplete). Whatever the
+// wrapper's shape, it must return exactly the records the model accepts from the start, stop at the first
+// failing or incomplete one, and fail iff the first does not parse. Tiny bound (5 bytes) because
+// `Vec<TlsPlaintext>` is expensive for the solver.
+fn model_record(i: &[u8]) -> IResult<&[u8], tp::TlsPlaintext> {
+    if i.len() < 2 {
+        return Err(Err::Incomplete(Needed::new(2 - i.len())));
+    }
+    if i[1] & 0x80 != 0 {
+        return Err(Err::Error(Error::new(i, ErrorKind::Tag)));
+    }
+    Ok((&i[2..], tp::TlsPlaintext {
+        hdr: tp::TlsRecordHeader { record_type: tp::TlsRecordType(i[0]), version: tp::TlsVersion(i[1] as u16), len: 0 },
+        msg: Vec::new(),
+    }))
+}
+
+#[kani::proof]
+#[kani::unwind(5)]
+#[kani::stub(tp::parse_tls_plaintext, model_record)]
+fn c16_wrapper_with_model_record_parser() {
+    let buf: [u8; 5] = kani::any();
+    let n: usize = kani::any();
+    kani::assume(n <= 5);
+    let b = &buf[..n];
+    let r = ManuallyDrop::new(tp::tls_parser_many(b));
+    let mut pos = 0;
+    let mut k = 0;
+    while pos + 2 <= n && b[pos + 1] & 0x80 == 0 {
+        pos += 2;
+        k += 1;
+    }
+    if k == 0 {
+        vassert!(r.is_err(), "C16.many.fails_iff_first_record_does_not_parse");
+    } else {
+        vassert!(r.is_ok(), "C16.many.ok_when_first_record_parses");
+        if let Ok((rem, recs)) = &*r {
+            vassert!(recs.len() == k, "C16.many.exactly_the_records_that_parse");
+            vassert!(is_sub(b, rem, pos, n - pos), "C16.many.remainder_starts_at_first_failing_or_incomplete_record");
+            vassert!(recs[0].hdr.record_type.0 == b[0] && (k < 2 || recs[1].hdr.record_type.0 == b[2]), "C16.many.records_in_wire_order");
+            vcover!(k == 2 && pos < n, "C16.many.cover.two_records_then_incomplete");
+            vcover!(k == 1 && b[0] == 0x14 && n >= 4, "C16.many.cover.ccs_record_then_more");
+        }
+    }
+}
